@@ -89,7 +89,9 @@ class RenderContext:
 
         # A read-only namespace containing globally available variables. Usually
         # passed down from the environment.
-        self.globals: Mapping[str, object] = globals or {}
+        # NOTE: An empty mapping given by the caller could be filled in later. The
+        # render tag does that with its bound variable.
+        self.globals: Mapping[str, object] = globals if globals is not None else {}
 
         # A namespace for `increment` and `decrement` counters.
         self.counters: dict[str, int] = {}
